@@ -11,8 +11,8 @@ from concurrent.futures import ThreadPoolExecutor
 PROP = "C15"
 META = {
  "engine": "S-scheduler",
- "text": "Coq theorems (Props/C15.v, closed under the global context) prove for EVERY finite stream of control points (any values, any durations, any ticks_per_beat, linear and cosine mode, any event-count limit): the trace of the track is the first value followed by, for each consecutive pair of points, the D_i values v_i + (v_next - v_i) f(j/D_i), j = 1..D_i (f = id or (1 - cos(pi x))/2), hence exactly one control call on each of the 1 + sum D_i ticks and none after; each point is hit exactly (cos pi = -1), values stay between the segment's end points (-1 <= cos <= 1), zero-length points contribute no tick (jump), non-numeric fields and numeric fields equal at both ends are emitted unchanged, and a segment with a non-control end raises InvalidEventException without a call; durations within 5e-9 of a whole number of ticks count as that number. The model is a transcription of PInterpolate.__next__, PDict.__next__ and the interpolating branch of Track.tick as state machines and is tied to the repository on every run: several hundred tracks (8 resolutions, 2-8 points, rising/falling ints and floats, segment lengths 0/1/2/5/29/57/N/3N, float-awkward durations, quantize/delay/count, looping patterns, string controls, mixed-in non-control events) are run on a real Timeline tick by tick and every control() call (tick index exact; values exact where the exact value is a double, else 1e-9) is compared inside Coq (vm_compute) with the model's trace; an independent closed-form oracle in Fractions judges each implementation trace and supplies the failing input. Second round - the timeline's resolution is re-configured AFTER the track was scheduled (timeline.ticks_per_beat = n, timeline.clock_source = <clock with another resolution>, timeline.clock_source.ticks_per_beat = n; before the track's first tick - started at once or by quantize/delay -, between two segments, on a planning tick, in the middle of a segment; once or twice; finer, coarser, multiples, divisors, the same value): Sched/InterpRetime.v carries the resolution in the state of a history of ticks and changes (rt_trace; runv = tick k made at the resolution R k, R arbitrary) and the theorems C15_retime_* prove for EVERY such history that a segment is planned with D = round(duration x the resolution in force on its planning tick) steps (the first segment on the track's first tick, every later one on the tick after its starting point was sent), sends one message per tick, follows the curve formula with that D, hits its end point exactly and keeps its plan whatever the resolution does while it is under way (C15_retime_plan_kept); about a hundred such tracks are run on a real Timeline, judged by the oracle (D_i = duration_i x the resolution in force when segment i begins) and compared with the model (timeline_runv, which also keeps the timeline's time as Timeline.tick keeps it across a change).",
- "note": "Trusted: Coq kernel + VM; the Python harness; libm: cos(pi x) is taken from math.cos (a table of the values the run needs is handed to the model; the theorems assume only cos(pi*1) = -1 and -1 <= cos <= 1); IEEE double arithmetic of a + dt*(n+1)/D is validated by the exact/1e-9 comparison, not modelled bit by bit. Modelled not verified: Event construction and defaults (event.py) enter as data; the start tick (quantize/delay) is transcribed from Track.update/_schedule_action but its properties belong to the scheduling properties. Resolution changes: the oracle abstains when a change falls between the tick of a control point and the next tick (the text does not say which segment it belongs to; the model, like the code, plans the new segment with the new resolution) and reads the start tick off the first call when a change precedes a deferred start (how the timeline keeps its time across a change is modelled and compared, not judged; cases in which the re-gridding round() hits an exact tie are not generated). Not covered: changes made from inside a tick (by another track's event), output-device clock multipliers after a change, real clocks and tempo. Not covered: INTERPOLATION_NONE branch, muted/inactive events, tracks whose numeric field is missing in the next point (model: OErr).",
+ "text": "Coq theorems (Props/C15.v, closed under the global context) prove for EVERY finite stream of control points (any values, any durations, any ticks_per_beat, linear and cosine mode, any event-count limit): the trace of the track is the first value followed by, for each consecutive pair of points, the D_i values v_i + (v_next - v_i) f(j/D_i), j = 1..D_i (f = id or (1 - cos(pi x))/2), hence exactly one control call on each of the 1 + sum D_i ticks and none after; each point is hit exactly (cos pi = -1), values stay between the segment's end points (-1 <= cos <= 1), zero-length points contribute no tick (jump), non-numeric fields and numeric fields equal at both ends are emitted unchanged, and a segment with a non-control end raises InvalidEventException without a call; durations within 5e-9 of a whole number of ticks count as that number. The model is a transcription of PInterpolate.__next__, PDict.__next__ and the interpolating branch of Track.tick as state machines and is tied to the repository on every run: several hundred tracks (8 resolutions, 2-8 points, rising/falling ints and floats, segment lengths 0/1/2/5/29/57/N/3N, float-awkward durations, quantize/delay/count, looping patterns, string controls, mixed-in non-control events) are run on a real Timeline tick by tick and every control() call (tick index exact; values exact where the exact value is a double, else 1e-9) is compared inside Coq (vm_compute) with the model's trace; an independent closed-form oracle in Fractions judges each implementation trace and supplies the failing input. Second round - the timeline's resolution is re-configured AFTER the track was scheduled (timeline.ticks_per_beat = n, timeline.clock_source = <clock with another resolution>, timeline.clock_source.ticks_per_beat = n; before the track's first tick - started at once or by quantize/delay -, between two segments, on a planning tick, in the middle of a segment; once or twice; finer, coarser, multiples, divisors, the same value): Sched/InterpRetime.v carries the resolution in the state of a history of ticks and changes (rt_trace; runv = tick k made at the resolution R k, R arbitrary) and the theorems C15_retime_* prove for EVERY such history that a segment is planned with D = round(duration x the resolution in force on its planning tick) steps (the first segment on the track's first tick, every later one on the tick after its starting point was sent), sends one message per tick, follows the curve formula with that D, hits its end point exactly and keeps its plan whatever the resolution does while it is under way (C15_retime_plan_kept); about a hundred such tracks are run on a real Timeline, judged by the oracle (D_i = duration_i x the resolution in force when segment i begins) and compared with the model (timeline_runv, in which the timeline's time advances by exactly one tick of the resolution in force, as the repaired Timeline.tick does: no snapping onto the new grid).",
+ "note": "Trusted: Coq kernel + VM; the Python harness; libm: cos(pi x) is taken from math.cos (a table of the values the run needs is handed to the model; the theorems assume only cos(pi*1) = -1 and -1 <= cos <= 1); IEEE double arithmetic of a + dt*(n+1)/D is validated by the exact/1e-9 comparison, not modelled bit by bit. Modelled not verified: Event construction and defaults (event.py) enter as data; the start tick (quantize/delay) is transcribed from Track.update/_schedule_action but its properties belong to the scheduling properties. Resolution changes: the oracle abstains when a change falls between the tick of a control point and the next tick (the text does not say which segment it belongs to; the model, like the code, plans the new segment with the new resolution); a deferred start after a change is judged exactly (beats elapse at 1 / the resolution in force per tick; exact arithmetic - that the float clock of advance_on_tick_grid stays within rounding error of it is Base/FloatGrid.v retick_run_exact, not part of this cone). Not covered: changes made from inside a tick (by another track's event), output-device clock multipliers after a change, real clocks and tempo. Not covered: INTERPOLATION_NONE branch, muted/inactive events, tracks whose numeric field is missing in the next point (model: OErr).",
 }
 
 NS = [1, 7, 10, 24, 96, 100, 480, 1000]
@@ -276,36 +276,26 @@ def new_resolution(rng, n):
     return rng.choice([m for m in NS + [12, 48, 960] if m != n])
 
 
-def sim_start(case):
-    """Generator aid (NOT the oracle): the tick on which a track scheduled after case['pre'] ticks starts, with the
-    timeline's time kept as Timeline.tick keeps it while the resolution changes.  None: a rounding tie or a
-    comparison too close to call in exact arithmetic (the case is not used)."""
+def start_under_changes(case):
+    """The tick on which a track scheduled after case['pre'] ticks with quantize/delay starts when the resolution
+    changes on the way: beats elapse at 1 / (the resolution in force) per tick (the repaired Timeline.tick: no snapping
+    of the time onto the new grid), the track starts on the first tick at which the elapsed beats have reached
+    quantize * ceil(now / quantize) + delay.  Exact Fractions.  None: too close to call (within 1e-8 beats)."""
     if not (case["quantize"] or case["delay"]):
         return case["pre"]
     t = Fraction(0)
-
-    def step(t, n):
-        x = t * n + 1
-        f = math.floor(x)
-        if x - f == Fraction(1, 2):
-            return None
-        return Fraction(f if x - f < Fraction(1, 2) else f + 1, n)
     for k in range(case["pre"]):
-        t = step(t, res_at(case, k))
-        if t is None:
-            return None
+        t += Fraction(1, res_at(case, k))
     q = Fraction(case["quantize"] or 0)
     d = Fraction(case.get("delay_exact") or case["delay"] or 0)
     when = (t if q == 0 else q * math.ceil(t / q)) + d
     for k in range(case["pre"], case["pre"] + 6000):
         gap = when - t
-        if abs(gap - Fraction(5, 10 ** 9)) < Fraction(1, 10 ** 10):
+        if 0 < gap < Fraction(1, 10 ** 7):
             return None
-        if gap < Fraction(5, 10 ** 9):
+        if gap <= 0:
             return k
-        t = step(t, res_at(case, k))
-        if t is None:
-            return None
+        t += Fraction(1, res_at(case, k))
     return None
 
 
@@ -354,7 +344,7 @@ def make_retime_case(rng, c):
             m = cur if where == "same" else new_resolution(rng, cur)
             c["changes"].append({"tick": c["pre"] + off, "N": m, "how": rng.choice(HOWS)})
             cur = m
-        T0 = sim_start(c)
+        T0 = start_under_changes(c)
         if T0 is None or T0 > c["pre"] + 2500:
             continue
         kinds = rng.choice([["int"], ["eighth"], ["int", "eighth"], ["unit"], ["wide"]])
@@ -568,20 +558,13 @@ def oracle_replan(case, res, pts, t0_fixed):
     ticks_per_beat" - D_i = duration_i x the resolution in force when segment i begins; a change while a segment is
     under way does not re-plan it.  Segment 0 begins on the track's first tick; segment i >= 1 begins once point i has
     been sent (tick T_i); a change made between tick T_i and tick T_i + 1 is not attributed by the text to either
-    segment, so the oracle abstains there.  The start tick is the scheduling properties' business: it is computed
-    (exactly, as before) when no change precedes it, and otherwise read off the first call.
+    segment, so the oracle abstains there.  The start tick ("with and without quantize/delay") is the first tick at which
+    the beats elapsed - every tick counted with the tick length in force at that tick - have reached the scheduled time.
     Returns (t0, points with their D, None) or (t0, None, reason to abstain)."""
     changes = case["changes"]
-    if not (case["quantize"] or case["delay"]) or all(ch["tick"] >= t0_fixed for ch in changes):
-        t0 = t0_fixed
-    elif res["calls"]:
-        t0 = res["calls"][0][0]
-    elif res["exc"] is not None:
-        t0 = res["exc"][0]
-    else:
-        t0 = sim_start(case)
-        if t0 is None:
-            return None, None, "abstain:start-unknown"
+    t0 = start_under_changes(case)
+    if t0 is None:
+        return None, None, "abstain:start-too-close-to-call"
     out, T, first = [], t0, True
     for i, p in enumerate(pts):
         q = dict(p)
